@@ -29,7 +29,7 @@ def is_transparent(callee, extra=()):
 
 def sources(fn, op, extra_transparent=(), opaque=(), max_nodes=4000):
     """set of terminal origins of an operand:
-       ('const', repr) ('param', idx) ('call', callee, bb) ('bin', op, bb) ('agg', name, bb)
+       ('const', value, def_path_or_None) ('param', idx) ('call', callee, bb) ('bin', op, bb) ('agg', name, bb)
        ('other', kind, bb). Locals are expanded through ALL their definitions."""
     out = set()
     seen = set()
@@ -38,7 +38,7 @@ def sources(fn, op, extra_transparent=(), opaque=(), max_nodes=4000):
     def push_op(o):
         k = op_const(o)
         if k is not None:
-            out.add(('const', k.get('v', k.get('str', k.get('def', k.get('fn', k.get('ty')))))))
+            out.add(('const', k.get('v', k.get('str', k.get('fn', k.get('ty') if 'def' not in k else None))), k.get('def')))
             return
         pl = op_place(o)
         if pl is None:
